@@ -29,16 +29,16 @@ import (
 )
 
 type nodeState struct {
-	ShareBase  int              `json:"share_base"`
-	MaxShare   int              `json:"max_share"`
-	CapCPU     map[string]int   `json:"cap_cpu"`
-	UseCPU     map[string]int   `json:"use_cpu"`
-	UseCPUReq  float64          `json:"use_cpu_total"`
-	CapMem     int64            `json:"cap_mem"`
-	UseMem     int64            `json:"use_mem"`
+	ShareBase  int               `json:"share_base"`
+	MaxShare   int               `json:"max_share"`
+	CapCPU     map[string]int    `json:"cap_cpu"`
+	UseCPU     map[string]int    `json:"use_cpu"`
+	UseCPUReq  float64           `json:"use_cpu_total"`
+	CapMem     int64             `json:"cap_mem"`
+	UseMem     int64             `json:"use_mem"`
 	NUMA       map[string]string `json:"numa,omitempty"`
-	CapNUMAMem map[string]int64 `json:"cap_numa_mem,omitempty"`
-	UseNUMAMem map[string]int64 `json:"use_numa_mem,omitempty"`
+	CapNUMAMem map[string]int64  `json:"cap_numa_mem,omitempty"`
+	UseNUMAMem map[string]int64  `json:"use_numa_mem,omitempty"`
 }
 
 type wlRequest struct {
@@ -145,12 +145,12 @@ func toRaw(v any) map[string]any {
 
 // genOpts steers the node-state generator.
 type genOpts struct {
-	maxCores      int
-	wholeOnly     bool // only whole-core shares (capacity = base on every core), usage multiples allowed to be fragments
-	oddShares     bool // allow capacities that are not a multiple of the share base
-	numa          bool
-	bases         []int
-	fragmentBias  bool
+	maxCores     int
+	wholeOnly    bool // only whole-core shares (capacity = base on every core), usage multiples allowed to be fragments
+	oddShares    bool // allow capacities that are not a multiple of the share base
+	numa         bool
+	bases        []int
+	fragmentBias bool
 }
 
 func genNodeState(r *rand.Rand, o genOpts) *nodeState {
